@@ -127,6 +127,13 @@ struct World {
     /// the scripts ran out or referred to something that does not exist in
     /// this execution (possible only after model drift): stop the run
     cut: bool,
+    /// task whose poll is still open at the end of the replayed behaviour (0 = none)
+    cut_task: usize,
+    /// which poll of `cut_task` is the open one, and how many actions of it the behaviour contains
+    cut_poll: usize,
+    cut_acts: usize,
+    polls: Vec<usize>,
+    acts: usize,
     polled_in_step: Vec<usize>,
 }
 
@@ -162,6 +169,7 @@ fn grow(w: &mut World, id: usize) {
         w.finished.push(false);
         w.blk.push(Blk::Free);
         w.left.push(0);
+        w.polls.push(0);
         if let Source::Scripts(s) = &mut w.src {
             while s.len() < w.stash.len() {
                 s.push(VecDeque::new());
@@ -263,6 +271,10 @@ impl TaskFut {
     fn next_action(&self) -> Option<(Act, bool)> {
         let id = self.id;
         let mut wm = self.world.borrow_mut();
+        if wm.cut_task == id && wm.polls[id] == wm.cut_poll && wm.acts == wm.cut_acts {
+            return None;
+        }
+        wm.acts += 1;
         match wm.blk[id] {
             Blk::Wait(k) => return Some((Act::Wait(k), true)),
             Blk::Await(c) => return Some((Act::Await(c), true)),
@@ -270,7 +282,13 @@ impl TaskFut {
         }
         let wm = &mut *wm;
         match &mut wm.src {
-            Source::Scripts(s) => s[id].pop_front().map(|a| (a, false)),
+            // an exhausted script (possible only after model drift: the real
+            // executor polled this task more often than the driver) completes
+            // (a behaviour that ends inside a poll stops there: cut)
+            Source::Scripts(s) => match s[id].pop_front() {
+                Some(a) => Some((a, false)),
+                None => Some((Act::Complete, false)),
+            },
             Source::Random(r) => {
                 if wm.left[id] == 0 {
                     return Some((Act::Complete, false));
@@ -324,7 +342,12 @@ impl Future for TaskFut {
         let id = self.id;
         let w = &self.world;
         rec(w, "pb", id, 0, "", false, 0, true);
-        w.borrow_mut().polled_in_step.push(id);
+        {
+            let mut wm = w.borrow_mut();
+            wm.polled_in_step.push(id);
+            wm.polls[id] += 1;
+            wm.acts = 0;
+        }
         // stash a clone of the current waker (drops the previous clone)
         let old = w.borrow_mut().stash[id].replace(cx.waker().clone());
         drop(old);
@@ -454,6 +477,11 @@ fn new_world(nchan: usize, src: Source) -> W {
         next_id: 1,
         src,
         cut: false,
+        cut_task: 0,
+        cut_poll: 0,
+        cut_acts: 0,
+        polls: vec![0],
+        acts: 0,
         polled_in_step: Vec::new(),
     };
     Rc::new(RefCell::new(w))
@@ -486,13 +514,7 @@ fn do_step(w: &W) -> bool {
     let r = catch(|| exec.step());
     let polled = std::mem::take(&mut w.borrow_mut().polled_in_step);
     if w.borrow().cut {
-        // drop what the cut poll recorded: the trace ends before it
-        let mut wm = w.borrow_mut();
-        if let Some(&t) = polled.last() {
-            if let Some(i) = wm.events.iter().rposition(|e| e.ev == "pb" && e.t == t as i64) {
-                wm.events.truncate(i);
-            }
-        }
+        // the run ends inside this poll; what was recorded stays (a prefix)
         return false;
     }
     match r {
@@ -538,6 +560,16 @@ fn run_behaviour(h: &[Evt], nchan: usize) -> Vec<Evt> {
         }
     }
     let w = new_world(nchan, Source::Scripts(scripts));
+    if let Some(last) = h.last() {
+        if !matches!(last.ev.as_str(), "pe" | "noop" | "stall" | "try") && last.t > 0 {
+            let t = last.t;
+            let lastpb = h.iter().rposition(|e| e.ev == "pb" && e.t == t).unwrap_or(0);
+            let mut wm = w.borrow_mut();
+            wm.cut_task = t as usize;
+            wm.cut_poll = h.iter().filter(|e| e.ev == "pb" && e.t == t).count();
+            wm.cut_acts = h.len() - 1 - lastpb;
+        }
+    }
     for e in h {
         let go = match (e.ev.as_str(), e.t) {
             ("spawn", 0) => {
@@ -553,7 +585,14 @@ fn run_behaviour(h: &[Evt], nchan: usize) -> Vec<Evt> {
             break;
         }
     }
-    teardown(&w)
+    let cut_task = w.borrow().cut_task as i64;
+    let mut obs = teardown(&w);
+    // a behaviour that ends with the last action of an unfinished poll: the
+    // poll-end that the real step() then reports is beyond the behaviour
+    if cut_task != 0 && obs.len() == h.len() + 1 && obs.last().is_some_and(|e| e.ev == "pe" && e.t == cut_task) {
+        obs.pop();
+    }
+    obs
 }
 
 struct RandParams {
